@@ -166,7 +166,7 @@ var X *Explorer
 func NewExplorer(s, s2 *Solver) *Explorer {
 	return &Explorer{Solver: s, Solver2: s2, Aborted: map[string]int{}, Asserts: map[string]*AssertStat{}, Covers: map[string]int{},
 		KnownHits: map[string]int{}, FuncCalls: map[string]int{}, StubHits: map[string]int{}, Replaced: map[string]bool{},
-		MaxSteps: 4000000, MaxPaths: 200000, QTimeoutMs: 10000, WitnessK: 8, MaxViolPerLabel: 3, ShardN: 1, ShardDepth: 10}
+		MaxSteps: 4000000, MaxPaths: 200000, QTimeoutMs: 10000, WitnessK: 8, MaxViolPerLabel: 3, ShardN: 1, ShardDepth: 6}
 }
 
 func (e *Explorer) stat(label string) *AssertStat {
@@ -236,6 +236,14 @@ func (e *Explorer) checkShard() {
 	}
 }
 
+// pushWork queues an alternative prefix unless it provably belongs to another shard.
+func (e *Explorer) pushWork(alt []int) {
+	if e.ShardN > 1 && len(alt) == e.ShardDepth && e.shardOf(alt) != e.ShardI {
+		return
+	}
+	e.work = append(e.work, alt)
+}
+
 func (e *Explorer) shardOf(tr []int) int {
 	h := fnv.New32a()
 	for _, d := range tr {
@@ -269,11 +277,15 @@ func (e *Explorer) decide(c *Term) bool {
 	}
 	e.pos++
 	canT := e.feasible(c)
-	canF := e.feasible(Not(c))
+	canF := true
+	if canT {
+		// (the path condition itself is satisfiable by construction, so "not canT" implies canF)
+		canF = e.feasible(Not(c))
+	}
 	switch {
 	case canT && canF:
 		alt := append(append([]int{}, e.trace...), 0)
-		e.work = append(e.work, alt)
+		e.pushWork(alt)
 		e.trace = append(e.trace, 1)
 		e.addPC(c)
 		e.checkShard()
@@ -318,7 +330,7 @@ func (e *Explorer) choose(n int) int {
 	e.pos++
 	for i := n - 1; i >= 1; i-- {
 		alt := append(append([]int{}, e.trace...), i)
-		e.work = append(e.work, alt)
+		e.pushWork(alt)
 	}
 	e.trace = append(e.trace, 0)
 	e.chooseLog = append(e.chooseLog, 0)
